@@ -530,6 +530,18 @@ func init() {
 			if ferr != nil {
 				return nil, ferr
 			}
+			// the sort of the implementation is not stable: neighbours that the function does
+			// not order, but that are different items, may come out in either order
+			for i := 1; i < len(out); i++ {
+				if Same(out[i-1], out[i], 0) {
+					continue
+				}
+				r1, e1 := in.Apply(f, []Value{out[i-1], out[i]})
+				r2, e2 := in.Apply(f, []Value{out[i], out[i-1]})
+				if e1 != nil || e2 != nil || (r1 == Bool(false) && r2 == Bool(false)) {
+					in.SortTies = true
+				}
+			}
 			in.SortUsed = true
 			return &List{Items: out}, nil
 		}),
